@@ -24,8 +24,7 @@ Definition res_eqb (a b : res out) : bool :=
   end.
 (* the returned value, and the state of the caller's arrays after the call (they are updated in place; untouched on an exception) *)
 Definition ChkF (neg : Z) (cats : list cat) (cd : list (word * list cat)) (d : docarg) (s : scarg) (exp : res out) (after : list scores) : bool :=
-  let r := apply_category_filters neg cats cd d s in
-  res_eqb r exp && list_eqb sc_eqb (match r with Ok (_, scs') => scs' | Err _ => sc_list s end) after.
+  res_eqb (apply_category_filters neg cats cd d s) exp && list_eqb sc_eqb (arrays_after neg cats cd d s) after.
 Definition ChkT (ntags : nat) (d : docarg) (s : scarg) (exp : res out) : bool := res_eqb (type_check ntags d s) exp.
 (* the dictionary given as index lists: apply_filter itself *)
 Definition ChkA (neg : Z) (dix : list (word * list nat)) (ntags : nat) (docs : list (list word)) (scs : list scores) (exp : option (list scores)) : bool :=
